@@ -30,6 +30,18 @@ def hm_order_func(delta, E, R, nu, contact_point=0, baseline=0):
     return aa * run**(3/2) + baseline
 
 
+def hm_long_func(delta, E, R, nu, contact_point=0, baseline=0):
+    """paraboloid with a long-range repulsion before contact (continuous at
+    contact, non-decreasing with depth, linear in the modulus)"""
+    aa = 4/3 * E/(1-nu**2)*np.sqrt(R)
+    root = contact_point - delta
+    a0 = (1e-7)**(3/2)
+    pos = root > 0
+    bb = a0 * np.exp(np.where(pos, 0.0, root) / 1e-7)
+    bb[pos] = a0 + root[pos]**(3/2)
+    return aa * bb + baseline
+
+
 def hm_sig_func(delta, nu, R, E, baseline=0, contact_point=0):
     """paraboloid whose argument order differs from parameter_keys (legal:
     nanite warns about it and passes the parameters by keyword)"""
@@ -108,6 +120,13 @@ def build():
         parameter_keys=["E", "R", "nu", "contact_point", "baseline"],
         parameter_names=list(para_names),
         parameter_units=["Pa", "m", "", "m", "N"], **common)
+    m_long = types.SimpleNamespace(
+        get_parameter_defaults=_defaults_factory(para_spec),
+        model_doc="long range", model_func=hm_long_func,
+        model_key="hm_long", model_name="harness long-range force",
+        parameter_keys=["E", "R", "nu", "contact_point", "baseline"],
+        parameter_names=list(para_names),
+        parameter_units=["Pa", "m", "", "m", "N"], **common)
     cone_spec = [("E", dict(value=3e3, min=0)),
                  ("alpha", dict(value=25, min=0, max=90, vary=False)),
                  ("nu", dict(value=.5, min=0, max=.5, vary=False)),
@@ -153,13 +172,14 @@ def build():
         parameter_keys=list(expr_keys), parameter_names=list(expr_names),
         parameter_units=list(expr_units), model=_own_model,
         residual=_own_residual, **common)
-    return [m_order, m_anc, m_expr, m_own, m_sig]
+    return [m_order, m_anc, m_expr, m_own, m_sig, m_long]
 
 
 MODULI = {"hertz_para": ["E"], "hertz_cone": ["E"], "hertz_pyr3s": ["E"],
           "sneddon_spher_approx": ["E"],
           "power_layer_clifford_2009": ["E_S", "E_L"],
           "hm_order": ["E"], "hm_anc": ["E"], "hm_sig": ["E"],
+          "hm_long": ["E"],
           "hm_expr": ["E", "virtual_parameter"],
           "hm_own": ["E", "virtual_parameter"]}
 
